@@ -541,6 +541,42 @@ theorem hold_line_roundtrip (LF : CodecLaws F RF) (LP : CodecLaws P RP) (mode : 
     floatParse_print LF hr.stop.1 hr.stop.2, hread, pushObject, hold_type_bits.2, decodedSamples, pushed, hr.duration,
     show classify 128 = some ObjClass.hold from by decide]
 
+/-! ### sample names and banks through `convert_sound_type` -/
+
+/-- the part of a sample the format carries: its name and bank. -/
+def nameBank (s : HitSampleInfo) : HitSampleInfoName × SampleBank := (s.name, s.bank)
+
+/-- an optional addition sample. -/
+def optS (b : Bool) (s : HitSampleInfo) : List HitSampleInfo := if b then [s] else []
+
+/-- **sample names and banks come back** — lists as the decoder builds them: a `Normal` sample with a specified bank,
+then the additions finish / whistle / clap (any subset, in this order) sharing one specified addition bank. -/
+theorem decoded_names_banks_default (mode : GameMode) (first sF sW sC : HitSampleInfo) (fi wh cl : Bool) (nb ab : SampleBank)
+    (h1 : first.name = .default .normal) (h1b : first.bank = nb) (hnb : nb ≠ .none) (hab : ab ≠ .none)
+    (hF : sF.name = .default .finish) (hFb : sF.bank = ab) (hW : sW.name = .default .whistle) (hWb : sW.bank = ab)
+    (hC : sC.name = .default .clap) (hCb : sC.bank = ab) :
+    (decodedSamples (first :: (optS fi sF ++ optS wh sW ++ optS cl sC)) mode).map nameBank =
+      (first :: (optS fi sF ++ optS wh sW ++ optS cl sC)).map nameBank := by
+  have hnb' : (nb == SampleBank.none) = false := by simpa using hnb
+  have hab' : (ab == SampleBank.none) = false := by simpa using hab
+  cases fi <;> cases wh <;> cases cl <;>
+    simp (decide := true) [decodedSamples, bankInfoFor, bankInfoOf, normalBankOf, addBankOf, fileNameOf, soundTypeOf, optS,
+      List.find?, h1, hF, hW, hC, h1b, hFb, hWb, hCb, SampleBankInfo.convertSoundType, HitSampleInfo.new, nameBank,
+      someUnlessNone, hnb', hab', testBit, sndFinish, sndWhistle, sndClap, sndNormal]
+
+/-- … and lists whose first sample is a custom file (non-empty name; its bank is always `Normal`). -/
+theorem decoded_names_banks_file (mode : GameMode) (first sF sW sC : HitSampleInfo) (fi wh cl : Bool) (f : Str) (ab : SampleBank)
+    (h1 : first.name = .file f) (hf : f.isEmpty = false) (h1b : first.bank = SampleBank.normal) (hab : ab ≠ .none)
+    (hF : sF.name = .default .finish) (hFb : sF.bank = ab) (hW : sW.name = .default .whistle) (hWb : sW.bank = ab)
+    (hC : sC.name = .default .clap) (hCb : sC.bank = ab) :
+    (decodedSamples (first :: (optS fi sF ++ optS wh sW ++ optS cl sC)) mode).map nameBank =
+      (first :: (optS fi sF ++ optS wh sW ++ optS cl sC)).map nameBank := by
+  have hab' : (ab == SampleBank.none) = false := by simpa using hab
+  cases fi <;> cases wh <;> cases cl <;>
+    simp (decide := true) [decodedSamples, bankInfoFor, bankInfoOf, normalBankOf, addBankOf, fileNameOf, soundTypeOf, optS,
+      List.find?, h1, hF, hW, hC, h1b, hFb, hWb, hCb, hf, SampleBankInfo.convertSoundType, HitSampleInfo.new, nameBank,
+      someUnlessNone, hab', testBit, sndFinish, sndWhistle, sndClap]
+
 /-! ### non-vacuity (toy codec) -/
 
 instance {α : Type} [Scalar α] (x : α) : Decidable (InCoord x) := by unfold InCoord; infer_instance
@@ -584,6 +620,8 @@ theorem sampleHold_rep : RepHold ZC.Rep ZC.Rep GameMode.mania sampleHoldObj samp
 example : holdLine GameMode.mania sampleHoldObj sampleHold = str "64,192,1000,128,2,1250:2:3:0:0:" := by decide
 
 end
+
+example : (decodedSamples sampleSamples GameMode.osu).map nameBank = sampleSamples.map nameBank := by decide
 
 end RtObjects
 end Rosu
